@@ -8,6 +8,9 @@ Extracts, with `ast` only (nothing imported from mako):
   * the regex literals `create_filter_callable` matches filter entries with (mako/codegen.py): the decode regex
     must be `decode\\..+`, the call regex `(.+?)(\\(.*\\))` with or without a final `$`
                                                   -> `callRegexAnchored : Bool`
+  * from `SourceGenerator` (mako/_ast_util.py), which re-emits the entries of a filter list: which operator visitors
+    parenthesise their own output, which kinds `visit_operand` parenthesises, which visitors use `visit_operand`
+                                                  -> `selfParenthesisingVisitors`, `operandWrappedKinds`, `operandUsers`
   * the white-space code points of the running interpreter (`str.strip()` without argument, used by
     `match_expression` on the escapes)            -> `pyWhitespace : List Nat`
 into lean/MakoModel/Generated/Pipeline.lean.
@@ -114,13 +117,55 @@ def gen(repo) -> str:
                          "`(.+?)(\\(.*\\))` with or without a final `$`" % (rel, lits))
     anchored = CALL_RX[call_rx[0]]
 
+    # --- how the re-emitter of filter arguments groups operator expressions ------------------------------
+    rel = "mako/_ast_util.py"
+    tree = parse(repo, rel)
+    sg = find_class(tree, "SourceGenerator", rel)
+
+    def is_write(stmt, text):
+        return (isinstance(stmt, ast.Expr) and isinstance(stmt.value, ast.Call)
+                and isinstance(stmt.value.func, ast.Attribute) and stmt.value.func.attr == "write"
+                and isinstance(stmt.value.func.value, ast.Name) and stmt.value.func.value.id == "self"
+                and len(stmt.value.args) == 1 and isinstance(stmt.value.args[0], ast.Constant)
+                and stmt.value.args[0].value == text)
+
+    def body_of(fn):
+        b = fn.body
+        if b and isinstance(b[0], ast.Expr) and isinstance(b[0].value, ast.Constant) and isinstance(b[0].value.value, str):
+            b = b[1:]
+        return b
+    self_paren = []
+    for kind in ("BinOp", "BoolOp", "Compare", "UnaryOp"):
+        fn = find_func(sg.body, "visit_" + kind, rel)
+        b = body_of(fn)
+        # the visitor parenthesises its own output iff it opens with write("(") and closes with write(")")
+        # and writes no other parenthesis on its own
+        if len(b) >= 2 and is_write(b[0], "(") and is_write(b[-1], ")"):
+            self_paren.append(kind)
+    vo = find_func(sg.body, "visit_operand", rel)
+    wrapped = []
+    for node in ast.walk(vo):
+        if (isinstance(node, ast.If) and isinstance(node.test, ast.Call) and isinstance(node.test.func, ast.Name)
+                and node.test.func.id == "isinstance" and len(node.test.args) == 2):
+            t = node.test.args[1]
+            elts = t.elts if isinstance(t, ast.Tuple) else [t]
+            ok = len(node.body) == 3 and is_write(node.body[0], "(") and is_write(node.body[2], ")")
+            if ok:
+                for e in elts:
+                    wrapped.append(e.id if isinstance(e, ast.Name) else e.attr if isinstance(e, ast.Attribute) else "?")
+    operand_users = []
+    for kind in ("BinOp", "BoolOp", "Compare", "UnaryOp", "Attribute", "Subscript", "Call", "IfExp", "Starred"):
+        fn = find_func(sg.body, "visit_" + kind, rel)
+        if any(isinstance(n, ast.Attribute) and n.attr == "visit_operand" for n in ast.walk(fn)):
+            operand_users.append(kind)
+
     ws = [c for c in range(sys.maxunicode + 1) if not (0xD800 <= c <= 0xDFFF) and chr(c).isspace()]
     # str.strip() strips exactly the characters for which str.isspace() holds
     probe = "".join(chr(c) for c in ws)
     if probe.strip() != "":
         raise RegenError("str.strip() and str.isspace() disagree in this interpreter")
 
-    out = [HEADER % "mako/filters.py (DEFAULT_ESCAPES), mako/template.py (Template.__init__), mako/codegen.py (create_filter_callable regexes), the running interpreter (str.isspace)"]
+    out = [HEADER % "mako/filters.py (DEFAULT_ESCAPES), mako/template.py (Template.__init__), mako/codegen.py (create_filter_callable regexes), mako/_ast_util.py (SourceGenerator grouping), the running interpreter (str.isspace)"]
     out.append("namespace MakoModel.Generated.Pipeline\n\n")
     out.append("/-- `mako.filters.DEFAULT_ESCAPES`: filter flag -> callee text emitted by the code generator -/\n")
     out.append("def defaultEscapes : List (List Char × List Char) :=\n  [ ")
@@ -134,5 +179,12 @@ def gen(repo) -> str:
     out.append("def pyWhitespace : List Nat := [%s]\n\n" % ", ".join(str(c) for c in ws))
     out.append("/-- `create_filter_callable`: the call regex is %s - whether it ends with `$` -/\n" % call_rx[0])
     out.append("def callRegexAnchored : Bool := %s\n\n" % ("true" if anchored else "false"))
+    out.append("/-- `SourceGenerator` (mako/_ast_util.py, the re-emitter of filter-list entries): operator visitors among BinOp, "
+               "BoolOp, Compare, UnaryOp whose body opens with `self.write(\"(\")` and closes with `self.write(\")\")` -/\n")
+    out.append("def selfParenthesisingVisitors : List (List Char) := [%s]\n\n" % ", ".join(lstr(k) for k in self_paren))
+    out.append("/-- node kinds `visit_operand` writes inside parentheses -/\n")
+    out.append("def operandWrappedKinds : List (List Char) := [%s]\n\n" % ", ".join(lstr(k) for k in wrapped))
+    out.append("/-- visitors that write their sub-expressions through `visit_operand` -/\n")
+    out.append("def operandUsers : List (List Char) := [%s]\n\n" % ", ".join(lstr(k) for k in operand_users))
     out.append("end MakoModel.Generated.Pipeline\n")
     return "".join(out)
